@@ -97,6 +97,16 @@ add("C16",
     "the unit circle with the right quadrant signs); np.linalg.inv is an oracle checked through its defining products; tolerance 1e-9.",
     "Coq proof over R (closed form = recursion, regular simplex, spherical round trip) + rational shadow evaluated by vm_compute on real outputs", "DESIGN.md §5 C16")
 
+add("C12",
+    "(F) intensity scaling: one common factor on the light-induced part of every target, ratios unchanged, largest capture = smallest single-source maximum; chromatic scaling "
+    "L1*(n^ + alpha(b^ - n^)): total kept, hue direction kept with saturation contracted by alpha, alpha=1 identity, zero rows kept. (C) cone-separation certificate theorem. "
+    "Tie: gamut_l1_scaling outputs agree with the exact Q model; for gamut_dist_scaling the common alpha recovered from the output is re-applied exactly (all rows must "
+    "agree: common factor, totals, hue), every scaled chromaticity carries a chromatic-gamut membership certificate, maximality of alpha is certified by a separating "
+    "hyperplane at alpha+1e-5, and certified-inside sets must be returned unchanged — all evaluated in the Coq VM.",
+    TRUST + "qhull facet equations / alpha search are opaque; certificates from HiGHS LPs (untrusted). Systems are restricted to the property's quantifier: finite ub, "
+    "full-dimensional chromatic gamut, neutral point strictly inside. The barycentric map's affinity (C16) is what reduces the sqrt-valued computation to the rational formula.",
+    "Coq proof over Q (scaling algebra) + cone certificate checkers run by vm_compute on real outputs", "DESIGN.md §5 C12")
+
 NOT_APPLICABLE = []
 ALL = ["C%02d" % i for i in range(1, 21)]
 
